@@ -241,7 +241,15 @@ func enumerateSites(p *prover.F, fn *ssa.Function) []site {
 				}
 				goals = append(goals, siteGoal{"low <= high", hi.Add(lo, -1)})
 				if x.High != nil {
-					goals = append(goals, siteGoal{"high <= cap", bnd.Add(hi, -1)})
+					label := "high <= cap"
+					if _, isSl := x.X.Type().Underlying().(*types.Slice); isSl {
+						if _, isMk := x.X.(*ssa.MakeSlice); !isMk {
+							// beyond the length of a slice that was handed in lies memory that is not part of the value: the
+							// re-slice panics past the capacity and reads stale octets before it
+							label = "high <= len (a re-slice beyond the length panics or takes in whatever lies behind the value)"
+						}
+					}
+					goals = append(goals, siteGoal{label, bnd.Add(hi, -1)})
 				}
 				add(ins, "slice", goals...)
 			case *ssa.MakeSlice:
